@@ -94,16 +94,17 @@ Print Assumptions c15_tick_ready_exact.
 
 (** Link between the evaluators of Exec.v.  Full statement (not proved here):
     forall c, wf c -> check_case c = true -> holds_on c = true.
-    Proved: the lane-exclusivity clause of [holds_on].  Missing: the boolean
-    reflections of the conservation, latency, progress and FIFO clauses (their
+    Proved: the lane-exclusivity and FIFO clauses of [holds_on].  Missing: the boolean
+    reflections of the conservation, latency and progress clauses (their
     Prop counterparts are the theorems above; [holds_on] itself is evaluated on
     the implementation's observations on every run). *)
 From Akita Require Import C15.Exec C15.Proofs6.
-Theorem c15_model_agreement_implies_lane_clause_partial : forall c, (1 <= c_n c)%nat ->
+Theorem c15_model_agreement_implies_property_partial : forall c, (1 <= c_n c)%nat ->
   check_case c = true ->
-  forallb (fun r => slots_ok (c_w c) (c_n c) (b_snap (cr_obs r))) (c_rounds c) = true.
-Proof. exact check_implies_slots. Qed.
-Print Assumptions c15_model_agreement_implies_lane_clause_partial.
+  forallb (fun r => slots_ok (c_w c) (c_n c) (b_snap (cr_obs r))) (c_rounds c) = true /\
+  fifo_ok (c_w c) (c_rounds c) = true.
+Proof. intros c Hn H. split; [apply check_implies_slots|apply check_implies_fifo]; assumption. Qed.
+Print Assumptions c15_model_agreement_implies_property_partial.
 
 (** Regression lemma for the code before fix 6f910dbe ([run true]): in a
     single-stage pipeline an item accepted with delay 2 is never decremented and
